@@ -95,7 +95,7 @@ theorem default_only_for_unattributed (c : Ctx) (sh : FmtAttr) (va : Container) 
     cases transparentCall c.cc sh <;> simp
   unfold displayBody
   rw [hinfo]
-  cases hf : va.fmt <;> simp [hf, pure, Except.pure, bind, Except.bind]
+  cases hf : va.fmt <;> simp [pure, Except.pure, bind, Except.bind]
 
 /-! ### What the wrapped single field prints under `Pointer`
 
@@ -125,6 +125,15 @@ theorem wrapped_pointer_field_prints_held_pointer (slot held : Nat) :
 theorem wrapped_field_deref_iff_pointer (tr : Trait) :
     wrappedArg tr = .derefBinding ↔ tr = .pointer := by
   cases tr <;> simp [wrappedArg, wrappedFieldDeref]
+
+/-- The literal through which the wrapped single field is formatted denotes exactly one placeholder:
+the first positional argument (the field), no modifiers, **the derived trait** — for each of the nine
+formatting traits, read by the crate's own literal parser (model `parseFmtString`). -/
+theorem default_placeholder_is_the_derived_trait (tr : Trait) :
+    parseFmtString { isStart := fun c => c.isAlpha, isCont := fun c => c.isAlphanum || c == '_', isWs := fun c => c == ' ' }
+        (defaultPlaceholder tr)
+      = [{ arg := .pos 0, mods := false, trait := tr }] := by
+  cases tr <;> decide
 
 /-- A `_variant` placeholder with any format specifier or a non-`Display` trait is rejected. -/
 theorem variant_spec_rejected (c : Ctx) (attrs : List CAttr) (cont : Container) (vs : List VariantD)
